@@ -196,6 +196,7 @@ struct Lifter<'a> {
     params: Vec<(String, String)>,
     env: Vec<HashMap<String, String>>,
     havocs: Vec<String>,
+    local_closures: HashMap<String, syn::Expr>,
     notes: Vec<(String, usize, String)>,
     src: &'a str,
     offs: &'a Offsets,
@@ -306,16 +307,20 @@ impl<'a> Lifter<'a> {
                 }
                 ("RArr", "real") => {
                     self.note("L9", whole.span(), "element-wise array arithmetic");
-                    return Ok(v(format!("RArr {{ len: {0}.len, at: |i__: int| ({0}.at)(i__) {sym} {1} }}", a.text, b.text), "RArr"));
+                    let (pre, an, post) = self.arr_bind(&a);
+                    return Ok(v(format!("{pre}RArr {{ len: {0}.len, at: |i__: int| ({0}.at)(i__) {sym} {1} }}{post}", an, b.text), "RArr"));
                 }
                 ("real", "RArr") => {
                     self.note("L9", whole.span(), "element-wise array arithmetic");
-                    return Ok(v(format!("RArr {{ len: {1}.len, at: |i__: int| {0} {sym} ({1}.at)(i__) }}", a.text, b.text), "RArr"));
+                    let (pre, bn, post) = self.arr_bind(&b);
+                    return Ok(v(format!("{pre}RArr {{ len: {1}.len, at: |i__: int| {0} {sym} ({1}.at)(i__) }}{post}", a.text, bn), "RArr"));
                 }
                 ("RArr", "RArr") => {
                     self.note("L9", whole.span(), "element-wise array arithmetic");
+                    let (pre1, an, post1) = self.arr_bind(&a);
+                    let (pre2, bn, post2) = self.arr_bind(&b);
                     return Ok(v(
-                        format!("RArr {{ len: {0}.len, at: |i__: int| ({0}.at)(i__) {sym} ({1}.at)(i__) }}", a.text, b.text),
+                        format!("{pre1}{pre2}RArr {{ len: {0}.len, at: |i__: int| ({0}.at)(i__) {sym} ({1}.at)(i__) }}{post2}{post1}", an, bn),
                         "RArr",
                     ));
                 }
@@ -352,12 +357,21 @@ impl<'a> Lifter<'a> {
         p.segments.iter().map(|s| s.ident.to_string()).collect::<Vec<_>>().join("::")
     }
 
+    /// a compound array operand is bound to a fresh name once instead of being repeated in `len` and `at`
+    fn arr_bind(&mut self, x: &Val) -> (String, String, String) {
+        if x.text.starts_with("RArr {") || x.text.starts_with("{ let") || x.text.starts_with("(RArr {") || x.text.starts_with("({ let") {
+            let n = self.fresh("arr");
+            (format!("{{ let {n} = {}; ", x.text), n, " }".to_string())
+        } else {
+            (String::new(), x.text.clone(), String::new())
+        }
+    }
     fn closure1(&mut self, c: &syn::Expr, arg_ty: &str) -> R<(String, Val)> {
         // returns (param name, lifted body)
         // `f64::exp` etc. in function position is the closure `|x| x.exp()`
         if let syn::Expr::Path(p) = c {
             let segs: Vec<String> = p.path.segments.iter().map(|s| s.ident.to_string()).collect();
-            if segs.len() == 2 && segs[0] == "f64" {
+            if segs.len() == 2 && (segs[0] == "f64" || self.reg.types.get(&segs[0]).map(|t| t == "real").unwrap_or(false)) && segs[1] != "from" {
                 let synth: syn::Expr = syn::parse_str(&format!("|x__| x__.{}()", segs[1])).map_err(|e| e.to_string())?;
                 return self.closure1(&synth, arg_ty);
             }
@@ -367,12 +381,24 @@ impl<'a> Lifter<'a> {
                 return self.closure1(&synth, arg_ty);
             }
         }
+        // a closure bound to a local (`let f = |x: N| ..; xs.mapv(f)`) stands for its text
+        if let syn::Expr::Path(p) = c {
+            if let Some(id) = p.path.get_ident() {
+                if let Some(cl) = self.local_closures.get(&id.to_string()).cloned() {
+                    return self.closure1(&cl, arg_ty);
+                }
+            }
+        }
         let syn::Expr::Closure(cl) = c else { return unsupported("expected closure", c) };
         if cl.inputs.len() != 1 {
             return unsupported("closure arity", c);
         }
         let name = match &cl.inputs[0] {
             syn::Pat::Ident(i) => i.ident.to_string(),
+            syn::Pat::Type(pt) => match &*pt.pat {
+                syn::Pat::Ident(i) => i.ident.to_string(),
+                _ => return unsupported("closure pattern", c),
+            },
             syn::Pat::Reference(r) => match &*r.pat {
                 syn::Pat::Ident(i) => i.ident.to_string(),
                 _ => return unsupported("closure pattern", c),
@@ -546,7 +572,8 @@ impl<'a> Lifter<'a> {
                 match u.op {
                     syn::UnOp::Neg(_) => {
                         if x.ty == "RArr" {
-                            return Ok(v(format!("RArr {{ len: {0}.len, at: |i__: int| -(({0}.at)(i__)) }}", x.text), "RArr"));
+                            let (pre, xn, post) = self.arr_bind(&x);
+                            return Ok(v(format!("{pre}RArr {{ len: {0}.len, at: |i__: int| -(({0}.at)(i__)) }}{post}", xn), "RArr"));
                         }
                         Ok(v(format!("(-({}))", x.text), &x.ty))
                     }
@@ -1312,6 +1339,25 @@ impl<'a> Lifter<'a> {
                 let init = l.init.as_ref().ok_or("let without initialiser")?;
                 if init.diverge.is_some() {
                     return unsupported("let-else", &l.pat);
+                }
+                // L5c: `let f = |x| e;` where e reads nothing but x (and non-local names): the closure stands for its
+                // text wherever `f` is handed to mapv / map
+                if let (syn::Expr::Closure(cl), syn::Pat::Ident(pi)) = (&*init.expr, &l.pat) {
+                    if cl.inputs.len() == 1 {
+                        let pn = match &cl.inputs[0] {
+                            syn::Pat::Ident(i) => Some(i.ident.to_string()),
+                            syn::Pat::Type(pt) => match &*pt.pat { syn::Pat::Ident(i) => Some(i.ident.to_string()), _ => None },
+                            _ => None,
+                        };
+                        if let Some(pn) = pn {
+                            let captured: Vec<String> = Self::idents_of(&cl.body).into_iter().filter(|x| *x != pn && self.lookup(x).is_some()).collect();
+                            if captured.is_empty() {
+                                self.local_closures.insert(pi.ident.to_string(), (*init.expr).clone());
+                                self.note("L5c", l.span(), "closure bound to a local and reading only its parameter: inlined at its uses");
+                                return self.rest(rest, cont);
+                            }
+                        }
+                    }
                 }
                 // L18: `let s = <array>.sum();` binds the summand array as `s__terms` (observable), so that
                 // contracts can speak about the terms of a sum without repeating the lifted expression
@@ -2183,6 +2229,13 @@ impl<'a> Lifter<'a> {
                     let a = self.expr(&sh.elems[0])?;
                     let b = self.expr(&sh.elems[1])?;
                     v(format!("({}, {})", a.text, b.text), "(int, int)")
+                } else if let syn::Expr::Repeat(rp) = &c.args[0] {
+                    // `[n; 2]`: a square shape
+                    if !matches!(&*rp.len, syn::Expr::Lit(syn::ExprLit { lit: syn::Lit::Int(k), .. }) if k.base10_digits() == "2") {
+                        return unsupported("from_shape_fn shape", whole);
+                    }
+                    let a = self.expr(&rp.expr)?;
+                    v(format!("({0}, {0})", a.text), "(int, int)")
                 } else {
                     self.expr(&c.args[0])?
                 };
@@ -2327,6 +2380,24 @@ impl<'a> Lifter<'a> {
 
     fn method(&mut self, m: &syn::ExprMethodCall, whole: &syn::Expr) -> R<Val> {
         let name = m.method.to_string();
+        // L9b: `a2.index_axis(Axis(0), i)` / `Axis(1)`: row / column i of a two-dimensional array
+        if name == "index_axis" && m.args.len() == 2 {
+            if let syn::Expr::Call(c) = &m.args[0] {
+                if let (syn::Expr::Path(fp), Some(syn::Expr::Lit(syn::ExprLit { lit: syn::Lit::Int(k), .. }))) = (&*c.func, c.args.first()) {
+                    if fp.path.is_ident("Axis") {
+                        let recv = self.expr(&m.receiver)?;
+                        let idx = self.expr(&m.args[1])?;
+                        if recv.ty == "RArr2" && idx.ty == "int" {
+                            return match k.base10_digits() {
+                                "0" => Ok(v(format!("RArr {{ len: {0}.m, at: |i__: int| ({0}.at)({1}, i__) }}", recv.text, idx.text), "RArr")),
+                                "1" => Ok(v(format!("RArr {{ len: {0}.n, at: |i__: int| ({0}.at)(i__, {1}) }}", recv.text, idx.text), "RArr")),
+                                _ => unsupported("index_axis axis", whole),
+                            };
+                        }
+                    }
+                }
+            }
+        }
         // a.iter().zip(&b).map(|(x, y)| e).sum()  - the sum over the common index range of two arrays
         if name == "sum" && m.args.is_empty() {
             if let syn::Expr::MethodCall(mm) = &*m.receiver {
@@ -2562,7 +2633,9 @@ impl<'a> Lifter<'a> {
             if name == "expect" {
                 continue; // the panic message is not a value of the lifted function
             }
-            if matches!(a, syn::Expr::Closure(_)) {
+            let local_cl = matches!(a, syn::Expr::Path(p) if p.path.get_ident().map(|i| self.local_closures.contains_key(&i.to_string())).unwrap_or(false));
+            let fn_path = (name == "map" || name == "mapv") && matches!(a, syn::Expr::Path(p) if p.path.segments.len() == 2);
+            if matches!(a, syn::Expr::Closure(_)) || local_cl || fn_path {
                 args.push(v("<closure>", "closure"));
             } else {
                 args.push(self.expr(a)?);
@@ -2642,9 +2715,10 @@ impl<'a> Lifter<'a> {
                 return Ok(v(format!("rsum({0}.len, {0}.at)", recv.text), "real"));
             }
             ("get", "RArr") if args.len() == 1 => return self.elem(&recv, &args[0].text),
-            ("mapv", "RArr") => {
+            ("mapv" | "map", "RArr") if m.args.len() == 1 => {
                 let (pn, body) = self.closure1(&m.args[0], "real")?;
-                return Ok(v(format!("RArr {{ len: {0}.len, at: |i__: int| {{ let {pn} = ({0}.at)(i__); {1} }} }}", recv.text, body.text), "RArr"));
+                let (pre, rn, post) = self.arr_bind(&recv);
+                return Ok(v(format!("{pre}RArr {{ len: {0}.len, at: |i__: int| {{ let {pn} = ({0}.at)(i__); {1} }} }}{post}", rn, body.text), "RArr"));
             }
             ("map", t) if t.starts_with("Option<") && m.args.len() == 1 => {
                 let inner = t[7..t.len() - 1].to_string();
@@ -3117,7 +3191,28 @@ pub fn lift_fn(ctx: &mut Ctx, blk: &Block) -> Result<(String, Value), String> {
         let mut fl = FindLet { name: lname.to_string(), found: None };
         syn::visit::Visit::visit_block(&mut fl, f.block);
         let Some(l) = fl.found else { return Err(format!("lost anchor: no binding of `{lname}` in {path}")) };
-        let init = (*l.init.as_ref().unwrap().expr).clone();
+        let mut init = (*l.init.as_ref().unwrap().expr).clone();
+        // L29b `addend=<k>/<n>`: the initialiser is a chain of exactly n top-level `+` operands; lift the k-th (0-based,
+        // source order) alone.  Lets a contract speak about one summand of `let h = A + B + C;` at a time.
+        if let Some(spec) = blk.opt("addend") {
+            let (k, n) = spec.split_once('/').ok_or("addend=<k>/<n>")?;
+            let (k, n): (usize, usize) = (k.parse().map_err(|_| "addend=<k>/<n>")?, n.parse().map_err(|_| "addend=<k>/<n>")?);
+            fn flatten(e: &syn::Expr, out: &mut Vec<syn::Expr>) {
+                match e {
+                    syn::Expr::Binary(b) if matches!(b.op, syn::BinOp::Add(_)) => {
+                        flatten(&b.left, out);
+                        out.push((*b.right).clone());
+                    }
+                    _ => out.push(e.clone()),
+                }
+            }
+            let mut parts = Vec::new();
+            flatten(&init, &mut parts);
+            if parts.len() != n || k >= n {
+                return Err(format!("lost anchor: the initialiser of `{lname}` in {path} has {} addends, the template expects {n}", parts.len()));
+            }
+            init = parts[k].clone();
+        }
         params.clear();
         for kv in blk.opt("tail_locals").unwrap_or("").split(';').filter(|x| !x.is_empty()) {
             let (n, t) = kv.split_once(':').ok_or("tail_locals=name:type;...")?;
@@ -3305,6 +3400,7 @@ pub fn lift_fn(ctx: &mut Ctx, blk: &Block) -> Result<(String, Value), String> {
             params: params.clone(),
             env: vec![env0],
             havocs: vec![],
+            local_closures: HashMap::new(),
             notes: vec![],
             src: &src,
             offs: &offs,
